@@ -51,6 +51,16 @@ def mode_score(p):
                         if not close(got, exp, 1e-9):
                             return {"input": {"C": C, "D": D, "models": M, "probes": P, "offsets": offk, "normalise": norm, "machines": as_machines, "map_ubm": map_ubm},
                                     "observed": np.asarray(got).tolist(), "expected": exp.tolist(), "what": "linear_scoring differs from Σ_c (model-ubm)'/var (F - N(ubm+offset)) [/T]"}
+        # an ML-trained UBM that was warm-started from another GMM (ubm= without the MAP trainer): scored with ITS OWN parameters
+        seed_gmm = mk_gmm(C, D, seed + 77)
+        warm = GMMMachine(C, trainer="ml", ubm=seed_gmm)
+        warm.means, warm.variances, warm.weights = ubm.means.copy(), ubm.variances.copy(), ubm.weights.copy()
+        mm = np.array([m.means for m in models])
+        got = linear_scoring(models, warm, stats, 0, False)
+        exp = ref_score(mm, warm.means, warm.variances, [s.sum_px for s in stats], [s.n for s in stats], [s.t for s in stats], 0, False)
+        if not close(got, exp, 1e-9):
+            return {"input": {"ubm": "ML machine constructed with ubm=<seed GMM>"}, "observed": np.asarray(got).tolist(), "expected": exp.tolist(),
+                    "what": "a non-MAP UBM that carries a seed GMM is not scored with its own means/variances"}
         # derivative of the UBM log-likelihood along ubm + e (model - ubm)
         x = rs.normal(size=(6, D)) * 1.5 + 3
         st = ubm.acc_stats(x)
